@@ -587,6 +587,55 @@ pub fn dom_order_keys(doc: &str) -> Outcome {
     Outcome { observed, expected: "nodes with a zero or repeated key: []".into(), note: String::new() }
 }
 
+// ------------------------------------------------------------------------------------------------
+// C13: a tree mutator that FAILS must leave serialization and document-order keys unchanged
+
+pub const TREE_SCENARIOS: [&str; 6] = [
+    "append_ancestor",        // b.append_child(a) where a is b's parent           -> HierarchyRequestErr
+    "insert_before_ancestor", // a.insert_before(r, b) where r is an ancestor of a -> HierarchyRequestErr
+    "append_self",            // a.append_child(a)
+    "doc_second_element",     // doc.append_child(a): a document has one element   -> HierarchyRequestErr
+    "insert_before_self",     // r.insert_before(b, b)
+    "append_ok",              // control: r.append_child(a) succeeds (no expectation beyond "no panic")
+];
+
+pub fn dom_tree_atomic(scenario: &str) -> Outcome {
+    use xml_dom::{Document, Node, NodeList, NodeMut};
+    fn snapshot(doc: &xml_dom::XmlDocument) -> String {
+        fn walk(n: &xml_dom::XmlNode, out: &mut Vec<String>) {
+            out.push(format!("{}#{}", n.node_name(), n.order()));
+            for c in n.child_nodes().iter() {
+                walk(&c, out);
+            }
+        }
+        let mut keys = vec![];
+        walk(&doc.as_node(), &mut keys);
+        format!("{} keys=[{}]", doc, keys.join(" "))
+    }
+    let mut before = String::new();
+    let observed = guard(|| {
+        let (_, doc) = xml_dom::XmlDocument::from_raw("<r><a><b/></a><c/></r>").unwrap();
+        let r = doc.document_element().unwrap();
+        let a = r.child_nodes().item(0).unwrap();
+        let b = a.child_nodes().item(0).unwrap();
+        before = snapshot(&doc);
+        let res = match scenario {
+            "append_ancestor" => b.as_element().unwrap().append_child(a.clone()).map(|_| ()),
+            "insert_before_ancestor" => a.as_element().unwrap().insert_before(r.as_node(), Some(&b)).map(|_| ()),
+            "append_self" => a.as_element().unwrap().append_child(a.clone()).map(|_| ()),
+            "doc_second_element" => doc.append_child(a.clone()).map(|_| ()),
+            "insert_before_self" => a.as_element().unwrap().insert_before(b.clone(), Some(&b)).map(|_| ()),
+            _ => r.append_child(a.clone()).map(|_| ()),
+        };
+        match res {
+            Ok(()) => "Ok".to_string(),
+            Err(_) => format!("Err then {}", snapshot(&doc)),
+        }
+    });
+    let expected = if observed.starts_with("Err") { format!("Err then {}", before) } else { observed.clone() };
+    Outcome { observed, expected, note: "a refused mutator must leave the serialization and every order key unchanged".into() }
+}
+
 pub fn f64_grid() -> Vec<String> {
     let mut v: Vec<String> = vec![];
     for x in [
